@@ -534,6 +534,10 @@ pub enum Ev {
     Cycle { confirmed: bool, port: u8, len: usize, rx1: Option<Frame>, rx2: Option<Frame> },
     /// whole join transaction
     JoinCycle { rx1: Option<Frame>, rx2: Option<Frame> },
+    /// as Cycle, but the radio call of the `fault_at`-th micro step fails once; the application
+    /// retries that step (a failed send is abandoned)
+    CycleF { confirmed: bool, port: u8, len: usize, rx1: Option<Frame>, rx2: Option<Frame>, fault_at: usize },
+    JoinCycleF { rx1: Option<Frame>, rx2: Option<Frame>, fault_at: usize },
     /// snapshot the session through serde and restore it into the same device (C20)
     Persist,
 }
@@ -767,7 +771,9 @@ impl<const PW: u8, const GAIN: i8> NbCore<PW, GAIN> {
                 });
                 r
             }
-            Ev::Fault(_) | Ev::Cycle { .. } | Ev::JoinCycle { .. } => unreachable!("handled by apply"),
+            Ev::Fault(_) | Ev::Cycle { .. } | Ev::JoinCycle { .. } | Ev::CycleF { .. } | Ev::JoinCycleF { .. } => {
+                unreachable!("handled by apply")
+            }
         };
         self.radio.borrow_mut().fail_next = false;
         let resp = match r {
@@ -831,17 +837,30 @@ impl<const PW: u8, const GAIN: i8> NbCore<PW, GAIN> {
         }
         match ev {
             Ev::Cycle { confirmed, port, len, rx1, rx2 } => {
-                self.cycle(Ev::Send { confirmed: *confirmed, port: *port, len: *len }, rx1.clone(), rx2.clone())
+                self.cycle(Ev::Send { confirmed: *confirmed, port: *port, len: *len }, rx1.clone(), rx2.clone(), None)
             }
-            Ev::JoinCycle { rx1, rx2 } => self.cycle(Ev::Join, rx1.clone(), rx2.clone()),
+            Ev::JoinCycle { rx1, rx2 } => self.cycle(Ev::Join, rx1.clone(), rx2.clone(), None),
+            Ev::CycleF { confirmed, port, len, rx1, rx2, fault_at } => {
+                self.cycle(Ev::Send { confirmed: *confirmed, port: *port, len: *len }, rx1.clone(), rx2.clone(), Some(*fault_at))
+            }
+            Ev::JoinCycleF { rx1, rx2, fault_at } => self.cycle(Ev::Join, rx1.clone(), rx2.clone(), Some(*fault_at)),
             e => vec![self.micro(e)],
         }
     }
 
-    fn cycle(&mut self, start: Ev, rx1: Option<Frame>, rx2: Option<Frame>) -> Vec<Micro> {
+    fn cycle(&mut self, start: Ev, rx1: Option<Frame>, rx2: Option<Frame>, fault_at: Option<usize>) -> Vec<Micro> {
         let mut out = vec![];
+        let mut idx = 0usize;
         let mut push = |s: &mut Self, e: Ev, out: &mut Vec<Micro>| -> bool {
-            let m = s.micro(&e);
+            let faulty = fault_at == Some(idx);
+            idx += 1;
+            let is_start = matches!(e, Ev::Send { .. } | Ev::Join);
+            let mut m = if faulty { s.micro(&Ev::Fault(Box::new(e.clone()))) } else { s.micro(&e) };
+            if faulty && matches!(m.resp, Resp::ErrRadio) && !is_start && s.dead.is_none() {
+                // the application retries the step whose radio call failed
+                out.push(m);
+                m = s.micro(&e);
+            }
             let cont = s.dead.is_none() && !matches!(m.resp, Resp::ErrRadio | Resp::ErrState(_) | Resp::ErrMac(_));
             out.push(m);
             cont
